@@ -1051,6 +1051,10 @@ class MutableFileVersion:
         """
         new_size = data.get_size() + offset
         old_size = self.get_size()
+        if old_size == 0:
+            # An empty file has no segment to merge the new data with (and
+            # an empty SDMF file has segment size 0): re-encode.
+            return self._do_modify_update(data, offset)
         segment_size = self._version[3]
         num_old_segments = mathutil.div_ceil(old_size,
                                              segment_size)
